@@ -218,9 +218,11 @@ def replay(ck, jobs, label):
   order = [i for b in range(P) for i in srt[b::P]]
   res = core.run_workers("harness.workers.quant_replay", [jobs[i] for i in order], work=ck.work)
   res = dict(zip(order, res))
-  tot = {"entries": 0, "near_ties": 0, "near_ties_up": 0, "normal": 0, "underflow": 0, "subnormal_entry": 0}
+  tot = {"entries": 0, "near_ties": 0, "near_ties_up": 0, "normal": 0, "underflow": 0, "subnormal_entry": 0,
+         "flags": [[] for _ in jobs]}
   for i, j in enumerate(jobs):
     r = res[i]
+    tot["flags"][i] = [v["key"] for v in r["viol"]] + (["error"] if r["error"] else [])
     if r["error"]:
       ck.violation(f"quant|{j.get('dtype', 'pass')}|{'internal_error' if r.get('kind') == 'internal' else 'rejected'}",
                    f"{label}: {job_desc(j)} raised {r['error']}", {"job": job_desc(j), "tb": r.get("tb")})
@@ -244,6 +246,18 @@ def replay(ck, jobs, label):
     if not fail:
       ck.traces_ok(n)
   return tot
+
+
+def guarded_selftest(ck, name, rejected, base_ok):
+  """A binding self-test corrupts a case that the real code passes.  If the code under test is
+  itself wrong for the base case the self-test says nothing - and must not turn the VIOLATION
+  verdict into a machinery error."""
+  if base_ok:
+    ck.selftest(name, rejected)
+  elif ck.violations:
+    ck.assume(f"self-test '{name}' skipped: its uncorrupted base case already violates the property")
+  else:
+    raise core.MachineryError(f"self-test '{name}': base case fails although no violation was reported")
 
 
 def record(ck):
@@ -319,50 +333,63 @@ def run(ck):
   # (depends on what the code did, so it must never pre-empt a verdict)
   if not ck.violations and (tot["near_ties_up"] == 0 or tot["near_ties_up"] == tot["near_ties"]):
     raise core.MachineryError(f"vacuous: near ties were never resolved both ways by the code {tot}")
-  # binding self-test (R): corrupt the exported set of one normal-range column
-  bad = copy.deepcopy(next(j for j in jobs if j["kind"] == "cols" and j["layout"] == "vec" and j["dtype"] == "int8"))
-  bad["cols"] = bad["cols"][:1]
-  bad["cols"][0]["es"] = [0]
-  bad["cols"][0]["lo"][0] += 1            # entry -m must map to -127
-  bad2 = copy.deepcopy(next(j for j in jobs if j["kind"] == "mats" and j["dtype"] == "int16"))
-  bad2["items"] = [it for it in bad2["items"] if it["ed"]][:1]
-  bad2["items"][0]["diag"][0] += 1        # the expected diagonal entry
+  # binding self-tests (R): corrupt the exported set of one normal-range column / the expected
+  # diagonal of one matrix; the uncorrupted twins must pass
+  base1 = copy.deepcopy(next(j for j in jobs if j["kind"] == "cols" and j["layout"] == "vec" and j["dtype"] == "int8"))
+  base1["cols"] = base1["cols"][:1]
+  base1["cols"][0]["es"] = [0]
+  bad1 = copy.deepcopy(base1)
+  bad1["cols"][0]["lo"][0] += 1            # entry -m must map to -127
+  base2 = copy.deepcopy(next(j for j in jobs if j["kind"] == "mats" and j["dtype"] == "int16"))
+  base2["items"] = [it for it in base2["items"] if it["ed"]][:1]
+  bad2 = copy.deepcopy(base2)
+  bad2["items"][0]["diag"][0] += 1         # the expected diagonal entry
   sub = core.Check(ck.pid, ck.level, ck.tier, ck.seed)
   sub.work = ck.work
-  replay(sub, [bad, bad2], "selftest")
-  keys = {v[0] for v in sub.violations}
-  ck.selftest("R: corrupted exported payload set of a normal-range column is an (unmasked) violation",
-              "quant|int8|payload_not_allowed" in keys)
-  ck.selftest("R: corrupted expected diagonal is flagged", any(k.startswith("quant|int16|diagonal_not_") for k in keys))
+  fl = replay(sub, [base1, bad1, base2, bad2], "selftest")["flags"]
+  guarded_selftest(ck, "R: corrupted exported payload set of a normal-range column is an (unmasked) violation",
+                   "quant|int8|payload_not_allowed" in fl[1] and
+                   "quant|int8|payload_not_allowed" in {v[0] for v in sub.violations}, not fl[0])
+  guarded_selftest(ck, "R: corrupted expected diagonal is flagged",
+                   any(k.startswith("quant|int16|diagonal_not_") for k in fl[3]), not fl[2])
   # ---- V ---------------------------------------------------------------------------------
   ph["selftest_R"] = round(time.time() - t0, 1)
   traces = record(ck)
   ph["record"] = round(time.time() - t0, 1)
+  ok = {}
   for dt in DTS:
     if not traces[dt]:
+      if ck.violations:
+        return
       raise core.MachineryError("no trace recorded")
-    judge(ck, dt, traces[dt], "recorded round trip")
+    vs = judge(ck, dt, traces[dt], "recorded round trip")
+    ok[dt] = [t for t, v in zip(traces[dt], vs) if v["accepted"]]
   ph["validate"] = round(time.time() - t0, 1)
   tr0 = traces["int8"][0]
   ck.sample({"recorded_trace": {"x": tr0["x"], "ed": tr0["ed"], "events": tr0["events"], "meta": tr0["meta"]}})
-  a = copy.deepcopy(next(t for t in traces["int16"] if len(t["events"]) == 5 and abs(t["events"][2]["q"][0][0]) < 32000))
-  a["events"][2]["q"][0][0] += 2
-  b = copy.deepcopy(a)
-  b["events"][2]["q"][0][0] -= 2
-  b["events"][4]["q2"][0][0] += 1
-  cdiag = copy.deepcopy(next(t for t in traces["int16"] if t["ed"]))
-  cdiag["events"][0]["diag"][0] += 1
-  d = copy.deepcopy(a)
-  d["events"][2]["q"][0][0] -= 2
-  d["events"][1]["mx"][0] += 1
+  base = next((t for t in ok["int16"] if abs(t["events"][2]["q"][0][0]) < 32000 and not t["ed"]), None)
+  based = next((t for t in ok["int16"] if t["ed"]), None)
+  a = b = d = cdiag = None
+  if base:
+    a, b, d = copy.deepcopy(base), copy.deepcopy(base), copy.deepcopy(base)
+    a["events"][2]["q"][0][0] += 2
+    b["events"][4]["q2"][0][0] += 1
+    d["events"][1]["mx"][0] += 1
+  if based:
+    cdiag = copy.deepcopy(based)
+    cdiag["events"][0]["diag"][0] += 1
+  cases = [("V: payload off by two is rejected", a, ("payload_not_allowed", "payload_wraps")),
+           ("V: drifting re-quantised payload is rejected", b, ("requantisation_drifts",)),
+           ("V: wrong stored diagonal is rejected", cdiag, ("diagonal_not_stored_exactly",)),
+           ("V: wrong column maximum is rejected", d, ("bucket_is_not_column_maxabs_over_N",))]
+  have = [c for c in cases if c[1] is not None]
   sub = core.Check(ck.pid, ck.level, ck.tier, ck.seed)
   sub.work = ck.work
   vs = sub.validate("Quant_Trace", "Quant_Trace16",
-                    [{"x": t["x"], "ed": t["ed"], "events": t["events"]} for t in (a, b, cdiag, d)])
-  ck.selftest("V: payload off by two is rejected", vs[0]["verdict"] in ("payload_not_allowed", "payload_wraps"))
-  ck.selftest("V: drifting re-quantised payload is rejected", vs[1]["verdict"] == "requantisation_drifts")
-  ck.selftest("V: wrong stored diagonal is rejected", vs[2]["verdict"] == "diagonal_not_stored_exactly")
-  ck.selftest("V: wrong column maximum is rejected", vs[3]["verdict"] == "bucket_is_not_column_maxabs_over_N")
+                    [{"x": t["x"], "ed": t["ed"], "events": t["events"]} for _, t, _ in have]) if have else []
+  got = {c[0]: v for c, v in zip(have, vs)}
+  for name, t, want in cases:
+    guarded_selftest(ck, name, name in got and got[name]["verdict"] in want, t is not None)
   ck.assume("tensors are k * 2^e with integer mantissas k (|k| <= 65535 on the TLC lattice, <= 32768 in traces, "
             "24 bits in the numpy-judged leg) and one exponent per column; scaling by 2^e is exact")
   ck.assume("near-tie window |q - N x/max| <= 1/2 + |N x/max| 2^-21 (twice the rigorous float32 bound incl. "
